@@ -76,29 +76,42 @@ Definition qpart (qs : text) : text := if nonempty qs then 63 :: qs else [].
 Definition fpart (fr : text) : text := if nonempty fr then 35 :: fr else [].
 Definition some_if (s : text) : option text := if nonempty s then Some s else None.
 
+(* the scheme prefix: "scheme:" or nothing (a network-path reference //host/path) *)
+Definition sprefix (scheme : text) : text := if nonempty scheme then scheme ++ [58] else [].
+
 Lemma url_re_shape scheme auth pathtxt qs fr :
-  scheme <> [] -> forallb (not_in [58; 47; 63; 35]) scheme = true ->
+  forallb (not_in [58; 47; 63; 35]) scheme = true ->
   forallb (not_in [47; 63; 35]) auth = true ->
   (pathtxt = [] \/ exists p', pathtxt = 47 :: p') -> forallb (not_in [63; 35]) pathtxt = true ->
   forallb (not_in [35]) qs = true ->
-  url_re (scheme ++ [58] ++ [47; 47] ++ auth ++ pathtxt ++ qpart qs ++ fpart fr)
-  = mkRe (Some scheme) (Some auth) pathtxt (some_if qs) (some_if fr).
+  url_re (sprefix scheme ++ [47; 47] ++ auth ++ pathtxt ++ qpart qs ++ fpart fr)
+  = mkRe (some_if scheme) (Some auth) pathtxt (some_if qs) (some_if fr).
 Proof.
-  intros NE Hs Ha Hp0 Hp Hq. unfold url_re.
-  rewrite (span_stop _ scheme _ Hs) by reflexivity.
-  destruct scheme as [|s0 sr]; [contradiction|]. cbn [app].
+  intros Hs Ha Hp0 Hp Hq.
   assert (S2 : stops (not_in [47; 63; 35]) (pathtxt ++ qpart qs ++ fpart fr) = true).
   { destruct Hp0 as [->|[p' ->]]; [|reflexivity]. cbn [app]. unfold qpart, fpart.
     destruct (nonempty qs); [reflexivity|]. destruct (nonempty fr); reflexivity. }
-  rewrite (span_stop _ auth _ Ha S2).
   assert (S3 : stops (not_in [63; 35]) (qpart qs ++ fpart fr) = true).
   { unfold qpart, fpart. destruct (nonempty qs); [reflexivity|]. destruct (nonempty fr); reflexivity. }
-  rewrite (span_stop _ pathtxt _ Hp S3).
-  unfold qpart, fpart, some_if. destruct (nonempty qs) eqn:Q.
-  - cbn [app]. assert (S4 : stops (not_in [35]) (if nonempty fr then 35 :: fr else []) = true)
-      by (destruct (nonempty fr); reflexivity).
-    rewrite (span_stop _ qs _ Hq S4). destruct (nonempty fr); reflexivity.
-  - cbn [app]. destruct (nonempty fr) eqn:Fr; reflexivity.
+  assert (TAIL : forall sch,
+            (let '(au, s2) := let '(a, r') := span (not_in [47; 63; 35]) (auth ++ pathtxt ++ qpart qs ++ fpart fr) in (Some a, r') in
+             let '(path, s3) := span (not_in [63; 35]) s2 in
+             let '(q, s4) := match s3 with
+                             | 63 :: r => let '(a, r') := span (not_in [35]) r in (Some a, r')
+                             | _ => (None, s3)
+                             end in
+             let f := match s4 with 35 :: r => Some r | _ => None end in
+             mkRe sch au path q f) = mkRe sch (Some auth) pathtxt (some_if qs) (some_if fr)).
+  { intro sch. rewrite (span_stop _ auth _ Ha S2). rewrite (span_stop _ pathtxt _ Hp S3).
+    unfold qpart, fpart, some_if. destruct (nonempty qs) eqn:Q.
+    - cbn [app]. assert (S4 : stops (not_in [35]) (if nonempty fr then 35 :: fr else []) = true)
+        by (destruct (nonempty fr); reflexivity).
+      rewrite (span_stop _ qs _ Hq S4). destruct (nonempty fr); reflexivity.
+    - cbn [app]. destruct (nonempty fr) eqn:Fr; reflexivity. }
+  unfold url_re, sprefix. destruct scheme as [|s0 sr].
+  - cbn [nonempty app span]. change (not_in [58; 47; 63; 35] 47) with false. cbn iota. apply (TAIL None).
+  - cbn [nonempty]. rewrite <- app_assoc. rewrite (span_stop _ (s0 :: sr) _ Hs) by reflexivity.
+    cbn [app]. apply (TAIL (Some (s0 :: sr))).
 Qed.
 
 (* ---- path ------------------------------------------------------------------------------------ *)
@@ -397,16 +410,16 @@ Hypothesis host_parse :
   exists hraw, split_hostport O (ht ++ ptxt) = MOk (hraw, pres) /\ parse_host O hraw = MOk (fam', hp).
 
 Lemma parse_url_full scheme user pw pathtxt qs fr :
-  scheme <> [] -> forallb (not_in [58; 47; 63; 35]) scheme = true ->
+  forallb (not_in [58; 47; 63; 35]) scheme = true ->
   scalar_nfc user -> scalar_nfc pw ->
   (pathtxt = [] \/ exists p', pathtxt = 47 :: p') -> forallb (not_in [63; 35]) pathtxt = true ->
   forallb (not_in [35]) qs = true ->
-  parse_url O (scheme ++ [58] ++ [47; 47] ++ authority user pw ++ pathtxt ++ qpart qs ++ fpart fr)
-  = MOk (mkParsed (Some scheme) true (pu_user_txt user pw) (pu_pass_txt pw)
+  parse_url O (sprefix scheme ++ [47; 47] ++ authority user pw ++ pathtxt ++ qpart qs ++ fpart fr)
+  = MOk (mkParsed (some_if scheme) true (pu_user_txt user pw) (pu_pass_txt pw)
                   fam' hp pres pathtxt (some_if qs) (some_if fr)).
 Proof.
-  intros NE Hs Su Sp Hp0 Hp Hq. unfold parse_url.
-  rewrite (url_re_shape scheme (authority user pw) pathtxt qs fr NE Hs (authority_chars user pw Su Sp) Hp0 Hp Hq).
+  intros Hs Su Sp Hp0 Hp Hq. unfold parse_url.
+  rewrite (url_re_shape scheme (authority user pw) pathtxt qs fr Hs (authority_chars user pw Su Sp) Hp0 Hp Hq).
   cbn [g_authority g_scheme g_path g_query g_fragment].
   rewrite (split_userinfo_authority user pw Su Sp).
   destruct host_parse as [hraw [HSP HPH]]. rewrite HSP. cbn [mbind]. rewrite HPH. reflexivity.
@@ -433,17 +446,17 @@ Proof. destruct s; [reflexivity|discriminate]. Qed.
 Definition nfc_pair (kv : text * option text) := (nfc (fst kv), option_map nfc (snd kv)).
 
 Definition rendered scheme user pw path q frag : text :=
-  scheme ++ [58] ++ [47; 47] ++ authority user pw ++ join [47] (map (qf CPath) path)
+  sprefix scheme ++ [47; 47] ++ authority user pw ++ join [47] (map (qf CPath) path)
          ++ qpart (join [38] (map rp q)) ++ fpart (qf CFrag frag).
 
 Theorem url_init_rendered scheme user pw rest q frag :
-  scheme <> [] -> forallb (not_in [58; 47; 63; 35]) scheme = true ->
+  forallb (not_in [58; 47; 63; 35]) scheme = true ->
   scalar_nfc user -> scalar_nfc pw -> Forall scalar_nfc rest -> Forall pair_ok q -> scalar_nfc frag ->
   url_init T O (rendered scheme user pw ([] :: rest) q frag)
   = MOk (mkU scheme true (nfc user) (nfc pw) fam' h2 pres
              (map nfc ([] :: rest)) (map nfc_pair q) (nfc frag)).
 Proof.
-  intros NE Hs Su Sp Fp Fq Sf. unfold url_init, rendered.
+  intros Hs Su Sp Fp Fq Sf. unfold url_init, rendered.
   assert (Fpath : Forall scalar_nfc ([] :: rest)).
   { constructor; [unfold scalar_nfc; rewrite nfc_nil; reflexivity|exact Fp]. }
   assert (P0 : join [47] (map (qf CPath) ([] :: rest)) = []
@@ -453,11 +466,12 @@ Proof.
     destruct rest as [|y r']; cbn [map].
     - left. cbn [join]. exact Q0.
     - right. rewrite join_nonempty_head, Q0. cbn [app]. eauto. }
-  pose proof (parse_url_full scheme user pw _ _ (qf CFrag frag) NE Hs Su Sp P0
+  pose proof (parse_url_full scheme user pw _ _ (qf CFrag frag) Hs Su Sp P0
                 (path_chars _ Fpath) (query_chars q Fq)) as PU.
-  destruct scheme as [|s0 sr]; [contradiction|].
-  cbn [app] in PU |- *. rewrite PU. cbn [mbind pu_host pu_scheme pu_sep pu_user pu_pass pu_family pu_port
-                                            pu_path pu_query pu_fragment opt_text].
+  match goal with |- match ?t with [] => _ | _ :: _ => _ end = _ => destruct t as [|x0 xr] eqn:ET end.
+  { exfalso. apply app_eq_nil in ET as [_ ET]. discriminate. }
+  rewrite PU. cbn [mbind pu_host pu_scheme pu_sep pu_user pu_pass pu_family pu_port
+                                       pu_path pu_query pu_fragment].
   rewrite host_decode. cbn [mbind].
   rewrite !opt_text_some_if.
   assert (NEp : ([] :: rest : list text) <> []) by discriminate.
@@ -499,22 +513,21 @@ Proof. destruct a; [discriminate|reflexivity]. Qed.
 
 Theorem to_text_rendered scheme sep user pw fam host port rest q frag :
   let u := mkU scheme sep user pw fam host port ([] :: rest) q frag in
-  scheme <> [] -> nfc [] = [] ->
+  nfc [] = [] ->
   get_authority T O true u = MOk (authority user pw) ->
   to_text T O true u = MOk (rendered scheme user pw ([] :: rest) q frag).
 Proof.
-  intros u NE N0 GA. unfold to_text. rewrite GA. cbn [mbind]. cbn [u u_scheme u_path u_query u_frag].
-  unfold rendered. rewrite query_to_text_rp.
-  assert (S1 : nonempty scheme = true) by (destruct scheme; [contradiction|reflexivity]).
+  intros u N0 GA. unfold to_text. rewrite GA. cbn [mbind]. cbn [u u_scheme u_path u_query u_frag].
+  unfold rendered, sprefix. rewrite query_to_text_rp.
   assert (A1 : nonempty (authority user pw) = true).
   { pose proof (authority_ne user pw) as A. destruct (authority user pw); [contradiction|reflexivity]. }
-  rewrite S1, A1. cbn [andb]. change (quote T O true CPath) with (qf CPath). change (quote T O true CFrag frag) with (qf CFrag frag).
+  rewrite A1. change (quote T O true CPath) with (qf CPath). change (quote T O true CFrag frag) with (qf CFrag frag).
   assert (Q0 : qf CPath [] = []).
   { unfold qf, quote_full. fold nfc. rewrite N0. reflexivity. }
-  f_equal. rewrite <- !app_assoc. f_equal. cbn [app]. f_equal. f_equal. f_equal.
+  f_equal. f_equal. rewrite <- !app_assoc. cbn [app]. f_equal. f_equal. f_equal.
   destruct rest as [|y r'].
   - cbn [map join]. rewrite Q0. reflexivity.
-  - cbn [map]. rewrite join_nonempty_head, Q0. cbn [app nonempty negb]. reflexivity.
+  - cbn [map]. rewrite join_nonempty_head, Q0. cbn [app nonempty negb]. rewrite andb_false_r. reflexivity.
 Qed.
 
 (* ---- rendering the re-parsed URL gives the same text (needs: NFC idempotent, only the empty text
@@ -598,7 +611,7 @@ Theorem roundtrip_gen T O :
   forall scheme sep user pw fam host port rest q frag ht hp fam' h2,
   let nfc := o_nfc O in
   let u := mkU scheme sep user pw fam host port ([] :: rest) q frag in
-  scheme <> [] -> forallb (not_in [58; 47; 63; 35]) scheme = true ->
+  forallb (not_in [58; 47; 63; 35]) scheme = true ->
   nfc [] = [] ->
   all_scalar (nfc user) = true -> all_scalar (nfc pw) = true -> all_scalar (nfc frag) = true ->
   Forall (fun s => all_scalar (nfc s) = true) rest ->
@@ -615,11 +628,11 @@ Theorem roundtrip_gen T O :
              (map nfc ([] :: rest)) (map (nfc_pair O) q) (nfc frag)).
 Proof.
   intros TOK scheme sep user pw fam host port rest q frag ht hp fam' h2 nfc u
-         NE Hs N0 Su Sp Sf Fr Fq HTNE HTC GA HP DEC PV.
+         Hs N0 Su Sp Sf Fr Fq HTNE HTC GA HP DEC PV.
   pose proof (port_text_ok T u PV) as PO. split.
-  - apply (to_text_rendered T O ht HTNE (port_text T u) scheme sep user pw fam host port rest q frag NE N0 GA).
+  - apply (to_text_rendered T O ht HTNE (port_text T u) scheme sep user pw fam host port rest q frag N0 GA).
   - apply (url_init_rendered T O TOK ht HTNE HTC (port_text T u) (port_back T u) PO hp fam' HP h2 DEC N0
-             scheme user pw rest q frag NE Hs Su Sp Fr Fq Sf).
+             scheme user pw rest q frag Hs Su Sp Fr Fq Sf).
 Qed.
 
 Lemma weaken_host_chars ht :
@@ -634,8 +647,8 @@ Theorem roundtrip T O :
   forall scheme sep user pw fam host port rest q frag ht b4 h2,
   let nfc := o_nfc O in
   let u := mkU scheme sep user pw fam host port ([] :: rest) q frag in
-  (* scheme: non-empty, none of : / ? # *)
-  scheme <> [] -> forallb (not_in [58; 47; 63; 35]) scheme = true ->
+  (* scheme: none of : / ? # (empty for a network-path reference //host/...) *)
+  forallb (not_in [58; 47; 63; 35]) scheme = true ->
   (* NFC oracle: the empty text is normalised; normalised components are scalar-value strings *)
   nfc [] = [] ->
   all_scalar (nfc user) = true -> all_scalar (nfc pw) = true -> all_scalar (nfc frag) = true ->
@@ -654,11 +667,11 @@ Theorem roundtrip T O :
     u_scheme u' = scheme /\ u_host u' = h2 /\ u_port u' = port_back T u.
 Proof.
   intros TOK scheme sep user pw fam host port rest q frag ht b4 h2 nfc u
-         NE Hs N0 Su Sp Sf Fr Fq HNE F6 M58 ENC HTNE HTC I4 DEC PV.
+         Hs N0 Su Sp Sf Fr Fq HNE F6 M58 ENC HTNE HTC I4 DEC PV.
   pose proof (port_text_ok T u PV) as PO.
   assert (H58 : memN 58 ht = false) by (apply (forallb_not_in_mem _ _ 58 HTC); reflexivity).
   destruct (roundtrip_gen T O TOK scheme sep user pw fam host port rest q frag ht ht (if b4 then 4 else 0) h2
-              NE Hs N0 Su Sp Sf Fr Fq HTNE (weaken_host_chars ht HTC)) as [R P]; try exact PV.
+              Hs N0 Su Sp Sf Fr Fq HTNE (weaken_host_chars ht HTC)) as [R P]; try exact PV.
   - apply (get_authority_plain T O ht (port_text T u) scheme sep user pw fam host port ([] :: rest) q frag
              HNE F6 M58 ENC eq_refl).
   - exists ht. split.
@@ -674,7 +687,7 @@ Theorem roundtrip_v6 T O :
   forall scheme sep user pw fam host port rest q frag h2,
   let nfc := o_nfc O in
   let u := mkU scheme sep user pw fam host port ([] :: rest) q frag in
-  scheme <> [] -> forallb (not_in [58; 47; 63; 35]) scheme = true ->
+  forallb (not_in [58; 47; 63; 35]) scheme = true ->
   nfc [] = [] ->
   all_scalar (nfc user) = true -> all_scalar (nfc pw) = true -> all_scalar (nfc frag) = true ->
   Forall (fun s => all_scalar (nfc s) = true) rest ->
@@ -690,7 +703,7 @@ Theorem roundtrip_v6 T O :
     u_scheme u' = scheme /\ u_family u' = 6 /\ u_host u' = h2 /\ u_port u' = port_back T u.
 Proof.
   intros TOK scheme sep user pw fam host port rest q frag h2 nfc u
-         NE Hs N0 Su Sp Sf Fr Fq H58 HC I6 DEC PV.
+         Hs N0 Su Sp Sf Fr Fq H58 HC I6 DEC PV.
   pose proof (port_text_ok T u PV) as PO.
   assert (HNE : host <> []) by (destruct host; [discriminate|discriminate]).
   assert (H93 : memN 93 host = false) by (apply (forallb_not_in_mem _ _ 93 HC); reflexivity).
@@ -701,7 +714,7 @@ Proof.
     apply (forallb_weaken [93; 64; 47; 63; 35]); [|exact HC].
     intros c Hc. cbn [memN] in *. rewrite Hc. apply orb_true_r. }
   destruct (roundtrip_gen T O TOK scheme sep user pw fam host port rest q frag ht host 6 h2
-              NE Hs N0 Su Sp Sf Fr Fq HTNE HTC) as [R P]; try exact PV.
+              Hs N0 Su Sp Sf Fr Fq HTNE HTC) as [R P]; try exact PV.
   - apply (get_authority_v6 T O ht (port_text T u) scheme sep user pw fam host port ([] :: rest) q frag HNE);
       [rewrite H58; apply orb_true_r|reflexivity|reflexivity].
   - exists (91 :: host ++ [93]). split.
@@ -731,7 +744,7 @@ Theorem fixpoint_full_gen T O :
   let u := mkU scheme sep user pw fam host port ([] :: rest) q frag in
   let u1 := mkU scheme true (nfc user) (nfc pw) fam' h2 (port_back T u)
                 ([] :: map nfc rest) (map (nfc_pair O) q) (nfc frag) in
-  scheme <> [] -> forallb (not_in [58; 47; 63; 35]) scheme = true ->
+  forallb (not_in [58; 47; 63; 35]) scheme = true ->
   nfc [] = [] -> (forall x, nfc (nfc x) = nfc x) -> (forall x, nfc x = [] -> x = []) ->
   all_scalar (nfc user) = true -> all_scalar (nfc pw) = true -> all_scalar (nfc frag) = true ->
   Forall (fun s => all_scalar (nfc s) = true) rest ->
@@ -747,13 +760,13 @@ Theorem fixpoint_full_gen T O :
   to_text T O true u' = MOk full.
 Proof.
   intros TOK scheme sep user pw fam host port rest q frag ht hp fam' h2 nfc u u1
-         NE Hs N0 IDEM NN Su Sp Sf Fr Fq HTNE HTC GA HP DEC GA1 PV full u' R P.
+         Hs N0 IDEM NN Su Sp Sf Fr Fq HTNE HTC GA HP DEC GA1 PV full u' R P.
   destruct (roundtrip_gen T O TOK scheme sep user pw fam host port rest q frag ht hp fam' h2
-              NE Hs N0 Su Sp Sf Fr Fq HTNE HTC GA HP DEC PV) as [R0 P0].
+              Hs N0 Su Sp Sf Fr Fq HTNE HTC GA HP DEC PV) as [R0 P0].
   pose proof (eq_trans (eq_sym R0) R) as EF. inversion EF as [EF']. subst full. clear EF R.
   pose proof (eq_trans (eq_sym P0) P) as EU. inversion EU as [EU']. clear EU P.
   pose proof (to_text_rendered T O ht HTNE (port_text T u) scheme true (nfc user) (nfc pw)
-                fam' h2 (port_back T u) (map nfc rest) (map (nfc_pair O) q) (nfc frag) NE N0 GA1) as R1.
+                fam' h2 (port_back T u) (map nfc rest) (map (nfc_pair O) q) (nfc frag) N0 GA1) as R1.
   cbn [map]. fold nfc. rewrite N0. refine (eq_trans R1 _). f_equal.
   apply (rendered_nfc T O ht (port_text T u) N0 IDEM NN).
 Qed.
@@ -763,7 +776,7 @@ Theorem fixpoint_full_class T O :
   forall scheme sep user pw fam host port rest q frag ht b4 h2,
   let nfc := o_nfc O in
   let u := mkU scheme sep user pw fam host port ([] :: rest) q frag in
-  scheme <> [] -> forallb (not_in [58; 47; 63; 35]) scheme = true ->
+  forallb (not_in [58; 47; 63; 35]) scheme = true ->
   nfc [] = [] -> (forall x, nfc (nfc x) = nfc x) -> (forall x, nfc x = [] -> x = []) ->
   all_scalar (nfc user) = true -> all_scalar (nfc pw) = true -> all_scalar (nfc frag) = true ->
   Forall (fun s => all_scalar (nfc s) = true) rest ->
@@ -778,11 +791,11 @@ Theorem fixpoint_full_class T O :
   to_text T O true u' = MOk full.
 Proof.
   intros TOK scheme sep user pw fam host port rest q frag ht b4 h2 nfc u
-         NE Hs N0 IDEM NN Su Sp Sf Fr Fq HNE F6 M58 ENC HTNE HTC I4 DEC H2NE H2M ENC2 PV.
+         Hs N0 IDEM NN Su Sp Sf Fr Fq HNE F6 M58 ENC HTNE HTC I4 DEC H2NE H2M ENC2 PV.
   pose proof (port_text_ok T u PV) as PO.
   assert (H58 : memN 58 ht = false) by (apply (forallb_not_in_mem _ _ 58 HTC); reflexivity).
   apply (fixpoint_full_gen T O TOK scheme sep user pw fam host port rest q frag ht ht (if b4 then 4 else 0) h2
-           NE Hs N0 IDEM NN Su Sp Sf Fr Fq HTNE (weaken_host_chars ht HTC)); try exact PV.
+           Hs N0 IDEM NN Su Sp Sf Fr Fq HTNE (weaken_host_chars ht HTC)); try exact PV.
   - apply (get_authority_plain T O ht (port_text T u) scheme sep user pw fam host port ([] :: rest) q frag
              HNE F6 M58 ENC eq_refl).
   - exists ht. split.
@@ -800,7 +813,7 @@ Theorem fixpoint_full_v6 T O :
   forall scheme sep user pw fam host port rest q frag,
   let nfc := o_nfc O in
   let u := mkU scheme sep user pw fam host port ([] :: rest) q frag in
-  scheme <> [] -> forallb (not_in [58; 47; 63; 35]) scheme = true ->
+  forallb (not_in [58; 47; 63; 35]) scheme = true ->
   nfc [] = [] -> (forall x, nfc (nfc x) = nfc x) -> (forall x, nfc x = [] -> x = []) ->
   all_scalar (nfc user) = true -> all_scalar (nfc pw) = true -> all_scalar (nfc frag) = true ->
   Forall (fun s => all_scalar (nfc s) = true) rest ->
@@ -812,7 +825,7 @@ Theorem fixpoint_full_v6 T O :
   to_text T O true u' = MOk full.
 Proof.
   intros TOK scheme sep user pw fam host port rest q frag nfc u
-         NE Hs N0 IDEM NN Su Sp Sf Fr Fq H58 HC I6 DEC PV.
+         Hs N0 IDEM NN Su Sp Sf Fr Fq H58 HC I6 DEC PV.
   pose proof (port_text_ok T u PV) as PO.
   assert (HNE : host <> []) by (destruct host; [discriminate|discriminate]).
   assert (H93 : memN 93 host = false) by (apply (forallb_not_in_mem _ _ 93 HC); reflexivity).
@@ -823,7 +836,7 @@ Proof.
     apply (forallb_weaken [93; 64; 47; 63; 35]); [|exact HC].
     intros c Hc. cbn [memN] in *. rewrite Hc. apply orb_true_r. }
   apply (fixpoint_full_gen T O TOK scheme sep user pw fam host port rest q frag ht host 6 host
-           NE Hs N0 IDEM NN Su Sp Sf Fr Fq HTNE HTC); try exact PV.
+           Hs N0 IDEM NN Su Sp Sf Fr Fq HTNE HTC); try exact PV.
   - apply (get_authority_v6 T O ht (port_text T u) scheme sep user pw fam host port ([] :: rest) q frag HNE);
       [rewrite H58; apply orb_true_r|reflexivity|reflexivity].
   - exists (91 :: host ++ [93]). split.
